@@ -19,7 +19,6 @@ def sets_prepare(settype, newset, elem, toelem, tag):
 PROPS = {}
 
 PROPS["C20"] = dict(
-    claimed=False,
     lean_modules=["LC.Props.C20Heap", "LC.Props.C20Sets"],
     audit_module="LC.Props.C20",
     theorems=["LC.Heap.reachable_inv", "LC.Heap.push_spec", "LC.Heap.pop_isSome", "LC.Heap.pop_spec",
